@@ -8,8 +8,10 @@
    absolute / absolute_moveto / relative (exact, for paths without 1e-9 near misses of the subpath
    start: the code snaps those), move, the target forms, and the rounding bound.  Not proved here
    (correspondence + spec judge on every run): subpaths() splitting, the arcs_to_cubics step of
-   as_cmd_seq (its numerics are C12's theorems), the basic-shape outlines, and the size of the
-   drift when a 1e-9 snap does fire. *)
+   as_cmd_seq (its numerics are C12's theorems) and the basic-shape outlines.  When a 1e-9 snap does fire
+   the moved segment is proved to end exactly on the subpath start with its other arguments untouched
+   (so the drift is the <= 1e-9 the snap condition itself states); that the curve of a snapped path stays
+   within 1e-8 of the original is judged on near-closing inputs on every run. *)
 From Coq Require Import ZArith Reals Lra List Bool Ascii String.
 From Pico Require Import Num PyStr G_geom G_meta G_types Walk PathSem E3_walk E3_rewrites E3_shorthand E3_forms E3_chain E3_snap G_transform E1_affine.
 Import ListNotations.
@@ -80,6 +82,14 @@ Theorem C09_rewrite_snap_lands (rw : rw_t) (s cur : Pt) c (a : list R) pv :
   _next_pos ROps cur (fst (f_rewrite rw s cur c a pv)) (snd (f_rewrite rw s cur c a pv)) = s.
 Proof. exact (rewrite_snap_lands rw s cur c a pv). Qed.
 
+(* ... and nothing else changes: same letter, same leading arguments (control points, radii, flags); H/V become the line to the start *)
+Theorem C09_snap_changes_only_the_end_point (cur tgt : Pt) c (a : list R) :
+  In c endpoint_last_letters -> num_args c = Some (List.length a) ->
+  fst (_move_endpoint ROps cur c a tgt) = c /\
+  firstn (List.length a - 2) (snd (_move_endpoint ROps cur c a tgt)) = firstn (List.length a - 2) a /\
+  List.length (snd (_move_endpoint ROps cur c a tgt)) = List.length a.
+Proof. exact (move_endpoint_keeps_rest cur tgt c a). Qed.
+
 (* rounding to n digits moves no coordinate by more than half a unit in the last place *)
 Theorem C09_rounding (nd : Z) (p : pathR) :
   Forall2 (fun c c' => fst c = fst c' /\
@@ -96,5 +106,5 @@ Proof. repeat constructor; cbn; tauto. Qed.
 (* one traversal for the axioms of the whole property file *)
 Definition C09_all := (C09_walk_tracks_current_point, C09_explicit_lines, C09_expand_shorthand, C09_absolute,
   C09_absolute_moveto, C09_relative, C09_move, C09_no_lowercase_after_absolute, C09_no_HV_after_explicit_lines,
-  C09_no_ST_after_expand_shorthand, C09_as_cmd_seq, C09_snapped_segment_ends_on_start, C09_rewrite_snap_lands, C09_rounding).
+  C09_no_ST_after_expand_shorthand, C09_as_cmd_seq, C09_snapped_segment_ends_on_start, C09_rewrite_snap_lands, C09_snap_changes_only_the_end_point, C09_rounding).
 Print Assumptions C09_all.
